@@ -2,6 +2,7 @@ import MosnVerif.Drive.Util
 import MosnVerif.Model.Shutdown
 import MosnVerif.Model.Transfer
 import MosnVerif.Model.H2GoAway
+import MosnVerif.Model.TransferLookup
 /-! `mosnmodel` driver for C11: evaluates the models on one case line and the property predicate (`Spec…`, written
 against literal reference values, never against regenerated code) on the implementation's output. -/
 namespace MosnVerif.Drive.C11
@@ -307,6 +308,112 @@ def up (c : List String) (impl : List String) : String :=
     verdict (joinWith " " impl == out) spec out
   | _, _, _, _ => "E E bad-case"
 
+/-! ### graceful stop / hot-upgrade Shutdown with the traffic on a listener that binds no port (kind vl) -/
+
+def vl (c : List String) (impl : List String) : String :=
+  match kv c "stage" >>= String.toInt?, kv c "phase", kvNat c "idle", kvNat c "drain", kvNat c "hold" with
+  | some stage, some phase, some idle, some drain, some hold =>
+    let tickMs : Nat := Gen.Shutdown.drainSleepMs.toNat
+    let n := idle + 1
+    let main := n - 1
+    let s0 := sysVirtual ((drain * tickMs : Nat) : Int) Gen.Shutdown.xprotocolSendsGoAwayFrame false n
+    let decoded := phase == "wait" || phase == "resp"
+    let pre := if decoded then [Ev.bytes main, Ev.decoded main] else if phase == "hdr" || phase == "body" then [Ev.bytes main] else []
+    let sSig := Model.Shutdown.run s0 (pre ++ [Ev.signal stage])
+    -- without the shutdown callback nothing waits: Shutdown returns at once
+    let cbRan := sSig.draining || sSig.exited
+    let s := Model.Shutdown.run sSig ((List.replicate hold [Ev.exit, Ev.tick tickMs]).flatten ++ [Ev.exit])
+    let exitFirst := s.exited || !cbRan
+    let s1 := { s with exited := false }
+    let s2 := Model.Shutdown.run s1 [Ev.bytes main, Ev.decoded main, Ev.respDone main]
+    let req := outcome s1 s2 main
+    let late := if idle == 0 then "na" else outcome s2 (Model.Shutdown.run s2 [Ev.decoded 0, Ev.respDone 0]) 0
+    let ga := joinWith "," (s.conns.map (fun k => toString k.goAway))
+    let cga := (s.conns.map (·.notified)).foldl (· + ·) 0
+    -- the feeder: a bound, running listener of the same server, shut down by the same call
+    let f := (lisShutdown ⟨Gen.Shutdown.ListenerRunning, true, true, true, true⟩ stage).1
+    let newc := match probeResult f with | "acc" => "srv" | x => x
+    let out := s!"req={req} exitfirst={if exitFirst then 1 else 0} goaway={ga} cga={cga} late={late} vstate0={lisVirtual.state} vstate={s.lis.state} fstate={f.state} new={newc} shut=ok"
+    -- reference property, literal values: 13 = Upgrading, listener state 1 = Running
+    let g (k : String) := (kv impl k).getD "?"
+    let upgrade := stage == 13
+    let gas := (g "goaway").splitOn ","
+    let spec := g "req" == "ok" && g "shut" == "ok" && g "vstate0" != "1" && g "vstate" != "1"
+      && gas.length == n && gas.all (· == "1") && g "cga" == toString n
+      && (if upgrade then g "new" == "pend" else g "new" == "ref")
+      && (upgrade || !decoded || g "exitfirst" == "0" || hold > drain)
+      && (idle == 0 || g "late" == "ok")
+    verdict (joinWith " " impl == out) spec out
+  | _, _, _, _, _ => "E E bad-case"
+
+/-! ### which listener of the new process adopts a handed-over connection (kinds tl, tf) -/
+section lookup
+open MosnVerif.Model.TransferLookup
+
+def parseLsts (t : String) : Option (List Lst) :=
+  if t == "-" then some [] else
+  (t.splitOn ",").mapM (fun x => match x.splitOn "|" with
+    | [n, a] => some (⟨n, a⟩ : Lst)
+    | _ => none)
+
+/-- reference, literal forms: the listener is configured on exactly the printed local address, or (TCP) on the IPv4 or
+the IPv6 wildcard of its port -/
+def refAccepts (kind net str port : String) (l : Lst) : Bool :=
+  kind != "other" && l.network == net && (l.addr == str || (kind == "tcp" && (l.addr == "0.0.0.0:" ++ port || l.addr == "[::]:" ++ port)))
+
+/-- reference property of a look-up result `r` (index or none): a listener is found iff one accepts the address; the one
+found accepts it; a listener on exactly the address is preferred to a wildcard -/
+def lookupSpec (ls : List Lst) (kind net str port : String) (r : Option Nat) : Bool :=
+  match r with
+  | none => !ls.any (refAccepts kind net str port)
+  | some i => match ls[i]? with
+    | none => false
+    | some l => refAccepts kind net str port l && (!(ls.any (fun m => m.network == net && m.addr == str)) || l.addr == str)
+
+def idxTok : Option Nat → String
+  | some i => toString i
+  | none => "-"
+
+def tl (lsTok kind net str port v4 : String) (impl : List String) : String :=
+  match parseLsts lsTok, impl with
+  | some ls, [r] =>
+    let a : Local := ⟨kind == "unix", net, str, port, v4 == "1"⟩
+    -- the default branch of the type switch (neither TCP nor unix address) finds nothing
+    let m := if kind == "other" then none else findIdx ls a
+    let ri := if r == "-" then some none else r.toNat?.map some
+    let spec := match ri with
+      | some x => lookupSpec ls kind net str port x
+      | none => false
+    verdict (r == idxTok m) spec (idxTok m)
+  | _, _ => "E E bad-case"
+
+def tf (lsTok : String) (c : List String) (impl : List String) : String :=
+  match parseLsts lsTok, kv c "acc", kv c "fam", kvNat c "half", kv impl "local", kv impl "v4" with
+  | some ls, some acc, some fam, some half, some loc, some v4 =>
+    let port := ((loc.splitOn ":").getLast?).getD ""
+    let a : Local := ⟨false, "tcp", loc, port, v4 == "1"⟩
+    let bytes : List UInt8 := (List.range half).map (fun i => UInt8.ofNat (i % 251))
+    let res := match findIdx ls a, adopt ls a bytes [] with
+      | some i, some (_, b, _) => if Model.Transfer.adoptedSurvives half && b == bytes then s!"id=1 by={i} req=ok" else s!"id=1 by={i} req=fail"
+      | _, _ => s!"id={Gen.Transfer.transferErr} by=- req=fail"
+    let out := s!"local={loc} v4={v4} {res}"
+    let g (k : String) := (kv impl k).getD "?"
+    -- the listener that accepted the connection in the old process is configured on an address that accepts the printed
+    -- local address (checks the hand-modelled address forms), the family is the client's
+    let accOk := acc == "-" || (match acc.toNat? >>= (ls[·]?) with
+      | some l => refAccepts "tcp" "tcp" loc port l
+      | none => false)
+    let by_ := if g "by" == "-" then some none else (g "by").toNat?.map some
+    let spec := accOk && (if fam == "4" then v4 == "1" else v4 == "0")
+      && (if ls.any (refAccepts "tcp" "tcp" loc port) then
+            g "id" == "1" && g "req" == "ok" && (match by_ with
+              | some (some j) => lookupSpec ls "tcp" "tcp" loc port (some j)
+              | _ => false)
+          else g "id" == "0")
+    verdict (joinWith " " impl == out) spec out
+  | _, _, _, _, _, _ => "E E bad-case"
+end lookup
+
 /-! ### HTTP/2 graceful stop at frame granularity (kind h2ga) -/
 section h2ga
 open MosnVerif.Model
@@ -406,6 +513,9 @@ def run (caseToks impl : List String) : String :=
   | ["ls", b, i, o] => ls b i o impl
   | ["sm", f, a] => sm f a impl
   | "gs" :: c => gs c impl
+  | "vl" :: c => vl c impl
+  | ["tl", ls, kind, net, str, port, v4] => tl ls kind net str port v4 impl
+  | "tf" :: ls :: c => tf ls c impl
   | "up" :: c => up c impl
   | "rs" :: c => rs c impl
   | _ => "E E unknown-kind"
